@@ -1624,7 +1624,9 @@ impl VectorEngine {
         {
             let cache = self.hnsw_cache.read();
             if let Some((index, mapping)) = cache.get(collection) {
-                if !mapping.is_empty() {
+                if !mapping.is_empty()
+                    && index.get_vector(0).is_some_and(|v| v.len() == query.len())
+                {
                     let neighbors = index.search(query, top_k);
                     let mut results: Vec<SearchResult> = neighbors
                         .into_iter()
@@ -1978,7 +1980,9 @@ impl VectorEngine {
         {
             let cache = self.hnsw_cache.read();
             if let Some((index, mapping)) = cache.get("_default") {
-                if !mapping.is_empty() {
+                if !mapping.is_empty()
+                    && index.get_vector(0).is_some_and(|v| v.len() == query.len())
+                {
                     let neighbors = index.search(query, top_k);
                     let prefix = Self::embedding_prefix();
                     let mut results: Vec<SearchResult> = neighbors
